@@ -3,7 +3,7 @@ from mc.oracle import jets
 
 PRIMS = ['exp', 'log', 'sqrt', 'sin', 'cos', 'tan', 'sinh', 'cosh', 'tanh', 'arctan', 'arcsin',
          'arcsinh', 'arctanh', 'expm1', 'log1p']
-POWERS = [2, 3, 5, -1, -2, 0.5, 1.5, -0.5]
+POWERS = [2, 3, 5, -1, -2, 0.5, 1.5, -0.5, 2.0, 3.0]      # (2.0, 3.0: integer-valued exponents given as Python floats)
 SCALES = [0.5, 2, 3]
 X = ('x',)
 
